@@ -1029,3 +1029,42 @@ def is_manifold_pre(C):
 
 def is_manifold_contract(prop):
     return Contract('cell::is_manifold', prop, pre=is_manifold_pre, post=is_manifold_post, assigns=[], safety={'bounds'}, name='cell::is_manifold')
+
+
+# ---- cell::replace_node, an arbitrary iteration of its walk around the old node: the visited face keeps its orientation -------------------------------
+def replace_node_body_contract(prop):
+    """the only face whose node triple changes gets exactly 'old id replaced by new id' at the same positions of the triple: the cyclic order
+    (winding) of every face is the one it had (hypothesis of the closed-oriented-surface lemma used by the volume / C14; clause of C01)"""
+    def pre(C):
+        o = C.old
+        fl = o.sub(C.this, 'cell.face_lst_'); nl = o.sub(C.this, 'cell.node_lst_')
+        it = [v for k_, v in C.pre_state.env.items() if C.e.var_names.get(k_) == 'edge_it'][0]
+        s = eset(o, C.this); k = it.f['key']
+        old_id = C.arg('old_node_id')
+        out = [('node-ids-in-range', z3.And(old_id >= 0, old_id < o.len(nl), C.arg('new_node_id') >= 0, C.arg('new_node_id') < o.len(nl), old_id != C.arg('new_node_id'))),
+               ('lists-nonneg', z3.And(o.len(fl) >= 0, o.len(nl) >= 0)),
+               # loop invariant of the walk: the current edge is an edge of this cell that ends at the old node and has two faces (C01: manifold)
+               ('current-edge-is-a-stored-edge-at-the-old-node', z3.And(it.f['ref'] == s, z3.Not(it.f['end']), member(o, s, k),
+                                                                        z3.Or(stored(o, s, k, 'n1_id_') == old_id, stored(o, s, k, 'n2_id_') == old_id),
+                                                                        stored(o, s, k, 'f1_id_.has'), stored(o, s, k, 'f2_id_.has')))]
+        # mesh invariant (C01): the two faces of a stored edge are live faces of the cell with three distinct nodes, among them the edge's end points
+        for side in ('f1_id_', 'f2_id_'):
+            fid = stored(o, s, k, side + '.value')
+            F = o.elem(fl, fid)
+            ids = [o.f(F, 'face.n%d_id_' % j) for j in (1, 2, 3)]
+            out.append(('face-%s-of-the-edge-is-a-triangle-at-the-old-node' % side[:2],
+                        z3.And(fid >= 0, fid < o.len(fl), z3.Distinct(*ids), z3.Or(*[i == old_id for i in ids]), *[z3.And(i >= 0, i < o.len(nl)) for i in ids])))
+        return out
+
+    def post(C):
+        o, n = C.old, C.new
+        g = z3.Int('any_face')
+        old_id, new_id = C.arg('old_node_id'), C.arg('new_node_id')
+        sub = lambda x: z3.If(x == old_id, new_id, x)
+        ids_o = [o.f(g, 'face.n%d_id_' % k) for k in (1, 2, 3)]
+        ids_n = [n.f(g, 'face.n%d_id_' % k) for k in (1, 2, 3)]
+        same = z3.And(*[a == b for a, b in zip(ids_n, ids_o)])
+        replaced = z3.And(*[a == sub(b) for a, b in zip(ids_n, ids_o)])
+        return [('every-face-keeps-its-node-order-up-to-the-replacement', z3.Or(same, replaced))]
+    return Contract('cell::replace_node', prop, pre=pre, post=post, slice_loop=0, safety=set(),
+                    name='cell::replace_node::<walk around the old node, loop body: orientation kept>')
